@@ -261,7 +261,7 @@ class CollAlg:
         elt = self.text(e.elt, ren)
         ident = {"elem": "_", "values": "_v", "keys": "_k"}.get(kind)
         if elt != ident:
-            base = ("map", base, elt, self.refs(e.elt, ren))
+            base = mk_map(base, elt, self.refs(e.elt, ren))
         elif kind in ("values", "keys"):
             base = ("map", base, elt, ())
         return ("set", base) if make_set else base
@@ -453,7 +453,7 @@ class CollAlg:
                 for g in guard or []:
                     b = ("filter", b, g)
                 elt = self.text(call.args[0], ren, temps)
-                new = b if elt == "_" else ("map", b, elt,
+                new = b if elt == "_" else mk_map(b, elt,
                                             self.refs(call.args[0], ren, temps))
             self.env[d] = ("concat", cur, new)
         elif f.attr == "extend" and len(call.args) == 1 and base is None:
@@ -598,7 +598,7 @@ class CollAlg:
                 if isinstance(s.value, ast.YieldFrom):
                     self.emit(("flatmap", b, txt))
                 else:
-                    self.emit(b if txt == "_" else ("map", b, txt, ()))
+                    self.emit(b if txt == "_" else mk_map(b, txt, ()))
                 continue
             if isinstance(s, ast.Expr):
                 continue
@@ -658,3 +658,17 @@ def _replace_elem(text: str, value: str) -> str:
             return _clone(v) if node.id == "_" else node
 
     return ast.unparse(ast.fix_missing_locations(R().visit(e)))
+
+
+def mk_map(base, elt: str, refs=()):
+    """map(base, elt) with map-of-map composed: map(map(B, m), e) =
+    map(B, e[_ := m]) (only when the outer element variable is `_`)."""
+    if isinstance(base, tuple) and base[0] == "map" and "_" in {
+            n.id for n in ast.walk(ast.parse(elt, mode="eval"))
+            if isinstance(n, ast.Name)}:
+        try:
+            return ("map", base[1], _replace_elem(elt, base[2]),
+                    tuple(base[3]) + tuple(refs))
+        except SyntaxError:
+            pass
+    return ("map", base, elt, refs)
